@@ -322,7 +322,7 @@ def _single_exit(stmts, retvar, tail=True):
             out.append(_returns_to_breaks(stmt))
             return out
         raise _Unsupported(f'return inside {type(stmt).__name__}')
-    if retvar is not None and tail:
+    if retvar is not None and tail and not _terminates(stmts):
         raise _Unsupported('a path falls off the end of a value helper')
     return out
 
@@ -427,8 +427,9 @@ def _uses(body_nodes, name):
 
 
 class _Inliner:
-    def __init__(self, tree, foreign_text, known=()):
+    def __init__(self, tree, foreign_text, known=(), imported=None):
         self.known = known
+        self.imported = imported or {}
         self.tree = tree
         self.foreign = foreign_text     # source of every OTHER module
         self.counter = 0
@@ -447,6 +448,10 @@ class _Inliner:
             if isinstance(node, ast.FunctionDef) and _eligible(
                     node, None, self.known) and names[node.name] == 1:
                 out[(None, node.name)] = node
+        # new expression helpers of other modules, imported by name
+        for local, fdef in self.imported.items():
+            if (None, local) not in out and names.get(local, 0) == 0:
+                out[(None, local)] = fdef
         for klass in [n for n in ast.walk(self.tree)
                       if isinstance(n, ast.ClassDef)]:
             for node in klass.body:
@@ -475,6 +480,22 @@ class _Inliner:
                 fexpr.value, ast.Name) and klass is not None):
             return None
         fdef = helpers.get((klass.name, fexpr.attr))
+        if fdef is None:
+            # inherited from a base class of the same module (the name is
+            # defined once in the module: no override can intervene)
+            todo, seen = [klass], set()
+            while todo and fdef is None:
+                cur = todo.pop()
+                if cur.name in seen:
+                    continue
+                seen.add(cur.name)
+                for base in cur.bases:
+                    bname = base.id if isinstance(base, ast.Name) else None
+                    bdef = next((n for n in ast.walk(self.tree) if isinstance(
+                        n, ast.ClassDef) and n.name == bname), None)
+                    if bdef is not None:
+                        fdef = fdef or helpers.get((bdef.name, fexpr.attr))
+                        todo.append(bdef)
         if fdef is None or fdef is func:
             return None
         recv = fexpr.value.id
@@ -508,10 +529,6 @@ class _Inliner:
 
         def run(func, klass):
             class Tr(ast.NodeTransformer):
-                def visit_FunctionDef(self, node):
-                    return node if node is not func else \
-                        self.generic_visit(node)
-
                 def visit_Lambda(self, node):
                     return node
 
@@ -596,6 +613,19 @@ class _Inliner:
                             stmt.test.op, ast.Not) and isinstance(
                                 stmt.test.operand, ast.Call):
                     slot = ('nottest', stmt.test.operand)
+                if slot is None and isinstance(stmt, (ast.Expr, ast.Assign,
+                                                      ast.Return)) and \
+                        isinstance(stmt.value, ast.Call) and _simple(
+                            stmt.value.func):
+                    # f(a, h(x), ...) with a, the callee and every earlier
+                    # argument plain: h(x) is the first thing evaluated
+                    for pos, arg in enumerate(stmt.value.args):
+                        if isinstance(arg, ast.Call) and outer._match(
+                                arg, helpers, klass, func) is not None:
+                            slot = (('arg', pos), arg)
+                            break
+                        if not _simple(arg):
+                            break
                 if slot is None:
                     return None
                 hit = outer._match(slot[1], helpers, klass, func)
@@ -609,6 +639,8 @@ class _Inliner:
                     stmt.iter = ref
                 elif slot[0] == 'test':
                     stmt.test = ref
+                elif isinstance(slot[0], tuple):
+                    stmt.value.args[slot[0][1]] = ref
                 else:
                     stmt.test.operand = ref
                 assign = ast.Assign(
@@ -623,6 +655,8 @@ class _Inliner:
                     stmt.iter = assign.value
                 elif kind == 'test':
                     stmt.test = assign.value
+                elif isinstance(kind, tuple):
+                    stmt.value.args[kind[1]] = assign.value
                 else:
                     stmt.test.operand = assign.value
 
@@ -948,12 +982,24 @@ class _Operators(ast.NodeTransformer):
         return node
 
 
-def inline_source(src, foreign_text='', known=()):
-    '''(new source, number of call sites inlined).'''
+def inline_source(src, foreign_text='', known=(), exported=None):
+    '''(new source, number of call sites inlined).  `exported`: {module
+    name: {function name: FunctionDef}} of the new single-expression helpers
+    of the other modules.'''
     tree = ast.parse(src)
     total = 0
+    imported = {}
+    for node in tree.body:
+        if isinstance(node, ast.ImportFrom) and node.module and exported:
+            for modname, funcs in exported.items():
+                if modname.endswith(node.module.lstrip('.')) or \
+                        node.module.endswith(modname.split('.')[-1]):
+                    for alias in node.names:
+                        if alias.name in funcs:
+                            imported[alias.asname or alias.name] = \
+                                funcs[alias.name]
     for _ in range(MAX_ROUNDS):
-        inl = _Inliner(tree, foreign_text, known)
+        inl = _Inliner(tree, foreign_text, known, imported)
         helpers = inl.helpers()
         if not helpers:
             break
@@ -981,13 +1027,29 @@ def build_overlay(program, only=None):
     (modules in which nothing could be inlined are absent).'''
     sources = {mod.relpath: mod.src for mod in program.modules.values()}
     overlay = dict(program.overlay)
+    # single-expression helpers that a change added to a module and that
+    # other modules import by name (`from ..path import task_path`)
+    exported = {}
+    for mod in program.modules.values():
+        known = reference_functions().get(mod.relpath, ())
+        try:
+            tree = ast.parse(mod.src)
+        except SyntaxError:
+            continue
+        for node in tree.body:
+            if isinstance(node, ast.FunctionDef) and _eligible(
+                    node, None, known):
+                body = _strip_doc(node.body)
+                if len(body) == 1 and isinstance(body[0], ast.Return) and \
+                        body[0].value is not None:
+                    exported.setdefault(mod.name, {})[node.name] = node
     for rel, src in sources.items():
         if only is not None and rel not in only:
             continue
         foreign = '\n'.join(s for r, s in sources.items() if r != rel)
         try:
             new, count = inline_source(
-                src, foreign, reference_functions().get(rel, ()))
+                src, foreign, reference_functions().get(rel, ()), exported)
         except (SyntaxError, ValueError, RecursionError):
             continue
         if count:
